@@ -127,28 +127,31 @@ uint64_t __CPROVER_uninterpreted_strlen(str_t);
 uint64_t str_t__size(str_t s) { return __CPROVER_uninterpreted_strlen(s); }
 #define SIZEOF__sockaddr_un_t ((uint64_t)110)
 #define int__SOCK_STREAM 1
-_Bool g_sock_ok, g_bound, g_listening, g_thread_started, g_path_copied;
-int ext__socket(int d, int t, int p) { if (nondet_bool()) { g_sock_ok = 1; int fd = nondet_int(); __CPROVER_assume(fd >= 0); return fd; } return -1; }
+_Bool g_sock_ok, g_bound, g_listening, g_thread_started, g_path_copied, g_sys_fail, g_unlink_enoent;
+int ext__socket(int d, int t, int p) { if (nondet_bool()) { g_sock_ok = 1; int fd = nondet_int(); __CPROVER_assume(fd >= 0); return fd; } g_sys_fail = 1; return -1; }
 void ext__memset(void *p, int c, uint64_t n) { }
 #define str_t__c_str(s) (s)
 /* strcpy(dst, src): dst is serv_addr_.sun_path, SUN_PATH_SIZE bytes (libc contract: the copy incl. terminator must fit) */
 void ext__strcpy(str_t dst, str_t src) { __CPROVER_assert(__CPROVER_uninterpreted_strlen(src) < SUN_PATH_SIZE, "UB: strcpy overflows sockaddr_un.sun_path (path of SUN_PATH_SIZE bytes or more)"); /*@C19*/ g_path_copied = 1; }
-int ext__unlink(str_t p) { return nondet_bool() ? 0 : -1; }
-int ext__bind(int fd, sockaddr_t *a, uint32_t len) { if (nondet_bool()) { g_bound = 1; return 0; } return -1; }
-int ext__chmod(str_t p, uint32_t m) { return nondet_bool() ? 0 : -1; }
-int ext__listen(int fd, int n) { if (nondet_bool()) { g_listening = 1; return 0; } return -1; }
+/* unlink: success, ENOENT (nothing to remove: fine), or another error */
+int ext__unlink(str_t p) { if (nondet_bool()) return 0; if (nondet_bool()) { ghost_errno = 2; return -1; } ghost_errno = 13; g_sys_fail = 1; return -1; }
+int ext__bind(int fd, sockaddr_t *a, uint32_t len) { if (nondet_bool()) { g_bound = 1; return 0; } g_sys_fail = 1; return -1; }
+int ext__chmod(str_t p, uint32_t m) { if (nondet_bool()) return 0; g_sys_fail = 1; return -1; }
+int ext__listen(int fd, int n) { if (nondet_bool()) { g_listening = 1; return 0; } g_sys_fail = 1; return -1; }
 void Stats__runSocket(Stats *self);
 thread_t thread_t__from__lambda_t(void (*f)(Stats *)) { g_thread_started = 1; return (thread_t)1; }
 _Bool Stats__startSocket(Stats *self)
-  __CPROVER_requires(__CPROVER_is_fresh(self, sizeof(*self)) && ghost_exc == 0 && !g_sock_ok && !g_bound && !g_listening && !g_thread_started && !g_path_copied)
-  __CPROVER_assigns(self->sockfd_, self->serv_addr_, self->stats_thread_, g_sock_ok, g_bound, g_listening, g_thread_started, g_path_copied, ghost_errno)
+  __CPROVER_requires(__CPROVER_is_fresh(self, sizeof(*self)) && ghost_exc == 0 && !g_sock_ok && !g_bound && !g_listening && !g_thread_started && !g_path_copied && !g_sys_fail)
+  __CPROVER_assigns(self->sockfd_, self->serv_addr_, self->stats_thread_, g_sock_ok, g_bound, g_listening, g_thread_started, g_path_copied, g_sys_fail, ghost_errno)
   __CPROVER_ensures(__CPROVER_return_value == 0 || __CPROVER_return_value == 1)
   /* a path that does not fit sun_path is reported as a failure and never copied */
   __CPROVER_ensures(__CPROVER_uninterpreted_strlen(self->stats_socket_path_) < SUN_PATH_SIZE || (__CPROVER_return_value == 0 && !g_path_copied)) /*@C19*/
   /* success means: socket created, bound, listening, acceptor thread started */
   __CPROVER_ensures(__CPROVER_return_value == 0 || (g_sock_ok && g_bound && g_listening && g_thread_started)) /*@C19*/
+  /* and conversely: a path that fits and system calls that all succeed (a missing old socket file is fine) give a running service */
+  __CPROVER_ensures(g_sys_fail || !(__CPROVER_uninterpreted_strlen(self->stats_socket_path_) < SUN_PATH_SIZE) || __CPROVER_return_value == 1) /*@C19*/
   __CPROVER_ensures((g_thread_started != 0) == (__CPROVER_return_value != 0) && ghost_exc == 0);
-void h_startSocket(void) { Stats *s; HAVOC_ST(); HAVOC(g_sock_ok); HAVOC(g_bound); HAVOC(g_listening); HAVOC(g_thread_started); HAVOC(g_path_copied); g_self = s; Stats__startSocket(s); CANARY; }
+void h_startSocket(void) { Stats *s; HAVOC_ST(); HAVOC(g_sock_ok); HAVOC(g_bound); HAVOC(g_listening); HAVOC(g_thread_started); HAVOC(g_path_copied); HAVOC(g_sys_fail); g_self = s; Stats__startSocket(s); CANARY; }
 void h_increment(void) { Stats *s; str_t k; int v; HAVOC_ST(); g_self = s; Stats__increment(s, k, v); CANARY; }
 void h_set(void) { Stats *s; str_t k; int v; HAVOC_ST(); g_self = s; Stats__set(s, k, v); CANARY; }
 void h_reset(void) { Stats *s; HAVOC_ST(); g_self = s; Stats__reset(s); CANARY; }
